@@ -69,8 +69,8 @@ Section P.
     eb_ok (b_eb st) -> builder_prefix st prefix uri sp = BOk st' -> eb_ok (b_eb st').
   Proof.
     unfold builder_prefix, bbind. intros Hok.
-    destruct (of_res (x_add_prefix (b_tabs st) prefix)) as [[pid t1]| |]; try discriminate.
-    destruct (of_res (x_add_namespace t1 uri)) as [[nsid t2]| |]; try discriminate.
+    destruct (of_res (x_add_prefix (b_tabs st) prefix)) as [[pid t1]| | |]; try discriminate.
+    destruct (of_res (x_add_namespace t1 uri)) as [[nsid t2]| | |]; try discriminate.
     destruct (b_eb st) as [eb|] eqn:Eeb; [|discriminate].
     destruct (has_prefix pid (eb_ns eb)) eqn:Ehp; [discriminate|].
     intros H. inversion H; subst. cbn. rewrite map_app. cbn.
@@ -89,18 +89,18 @@ Section P.
   Proof.
     induction l as [|a l IH]; intros st node done st' done' Hd Hi; cbn [open_attributes].
     - intros H. inversion H; subst. rewrite PeanoNat.Nat.add_0_r. auto.
-    - unfold bbind at 1. destruct (attribute_name_id bi st (ab_prefix a) (ab_name a) (ab_prefix_span a)) as [[st1 nid]| |] eqn:E1; try discriminate.
+    - unfold bbind at 1. destruct (attribute_name_id bi st (ab_prefix a) (ab_name a) (ab_prefix_span a)) as [[st1 nid]| | |] eqn:E1; try discriminate.
       destruct (existsb (fun x => N.eqb (fst (fst x)) nid) done) eqn:Ex; [discriminate|].
       assert (b_ids st1 = b_ids st) as Hids1.
       { unfold attribute_name_id, bbind in E1.
-        destruct (of_res (x_add_prefix (b_tabs st) (ab_prefix a))) as [[pid t1]| |]; try discriminate.
+        destruct (of_res (x_add_prefix (b_tabs st) (ab_prefix a))) as [[pid t1]| | |]; try discriminate.
         destruct (N.eqb pid (b_empty_prefix bi)).
-        - destruct (of_res (x_add_name_ns t1 (ab_name a) (b_no_namespace bi))) as [[n2 t2]| |]; inversion E1; reflexivity.
+        - destruct (of_res (x_add_name_ns t1 (ab_name a) (b_no_namespace bi))) as [[n2 t2]| | |]; inversion E1; reflexivity.
         - destruct (lookup_stack pid (b_nsstack st)); [|discriminate].
-          destruct (of_res (x_add_name_ns t1 (ab_name a) n)) as [[n2 t2]| |]; inversion E1; reflexivity. }
+          destruct (of_res (x_add_name_ns t1 (ab_name a) n)) as [[n2 t2]| | |]; inversion E1; reflexivity. }
       unfold bbind at 1.
       match goal with |- context [if N.eqb nid (b_xml_id bi) then ?x else ?y] =>
-        destruct (if N.eqb nid (b_xml_id bi) then x else y) as [st2| |] eqn:E2; try discriminate end.
+        destruct (if N.eqb nid (b_xml_id bi) then x else y) as [st2| | |] eqn:E2; try discriminate end.
       assert (NoDup (map fst (b_ids st2))) as Hi2.
       { destruct (N.eqb nid (b_xml_id bi)).
         - destruct (existsb (fun x => str_eqb (fst x) (ab_value a)) (b_ids st1)) eqn:Eid; [discriminate|].
@@ -111,7 +111,7 @@ Section P.
             clear. induction (ab_value a) as [|c s IHs]; cbn; [reflexivity|]. rewrite N.eqb_refl. exact IHs. }
           congruence.
         - inversion E2; subst. rewrite Hids1. exact Hi. }
-      unfold bbind at 1. destruct (add_node st2 (VAttribute nid (ab_value a))) as [[st3 n3]| |] eqn:E3; try discriminate.
+      unfold bbind at 1. destruct (add_node st2 (VAttribute nid (ab_value a))) as [[st3 n3]| | |] eqn:E3; try discriminate.
       assert (b_ids st3 = b_ids st2) as Hids3.
       { unfold add_node in E3. destruct (b_stack st2); [discriminate|]. inversion E3; reflexivity. }
       intros H. apply IH in H.
